@@ -672,10 +672,14 @@ class TS:
             for e in self.by_thread[t]:
                 if e.src == st[f"pc.{t}"] and e.kind == "step" and ev_conc(e.guard, st, nd):
                     out.append(e)
-        if not out and with_timeouts:
+        eager = getattr(self, "eager_timeouts", ())
+        if with_timeouts:
+            had_step = bool(out)
             for t in self.threads:
                 if not self.active(st, t):
                     continue
+                if had_step and t not in eager:
+                    continue       # time passes only when nothing else can run - except for threads with eager timeouts
                 for e in self.by_thread[t]:
                     if e.src == st[f"pc.{t}"] and e.kind == "timeout" and ev_conc(e.guard, st, nd):
                         out.append(e)
@@ -902,8 +906,8 @@ class Encoding:
         for ti, t in enumerate(ts.threads):
             for e in ts.by_thread[t]:
                 c = z3.And(ch == ti, en[id(e)])
-                if e.kind == "timeout":
-                    c = z3.And(c, z3.Not(any_step))  # time passes only when nothing else can run
+                if e.kind == "timeout" and t not in getattr(ts, "eager_timeouts", ()):
+                    c = z3.And(c, z3.Not(any_step))  # time passes only when nothing else can run (eager threads: whenever the wait is unsatisfied)
                 fire[id(e)] = c
         any_fire_possible = z3.Or(any_step, z3.Or([en[id(e)] for e in ts.edges if e.kind == "timeout"] or [z3.BoolVal(False)]))
         fired_list = [(e, fire[id(e)]) for e in ts.edges]
